@@ -1001,7 +1001,8 @@ impl VmBuilder {
             &vm,
             "std.path.prim",
             crate::vm::primitives::load_path,
-            vec!["std.path.types".into()],
+            // `std.fs.prim` registers the `Metadata` type which `std.path.prim` refers to
+            vec!["std.path.types".into(), "std.fs.prim".into()],
         );
 
         add_extern_module_with_deps(
